@@ -32,6 +32,25 @@ CHECKS.update({
    note="A blocked coroutine under shuttle stands for a blocked OS thread; SeqCst atomics only."),
 })
 
+ST_NOTE = "Trusts the harness read/write loops and container parsers (written from the format specs); x86_64 only; inputs are sampled by seeded generation, not enumerated."
+def st(pid, cat, technique, text, note=ST_NOTE):
+    CHECKS[pid] = dict(engine="lzsim-st", category=cat, design_ref="DESIGN.md §3 "+pid, technique=technique, text=text, note=note)
+
+st("C01", "exploration", "deterministic simulation over the Read/Write seams: seeded call histories, benign short/Interrupted I/O, match-finder position jump (hook H3) with a bias-invariance oracle; input x option space by seeded generation",
+   "LZMAWriter (4 framings) and LZMA2Writer (plain, chunk_size, preset dictionary) are driven with random write/flush histories through SimSink and read back with random buffer sizes through SimSource; decoded bytes must equal the input, nothing may panic, LZMA2 output must pass the harness's chunk walker. rt.codec.bias starts the match finders just below 2^31-1 so that renormalisation runs inside the stream: compressed bytes must equal the unbiased run. rt.codec.big uses 0.1-6 MB inputs against 4 KiB-1 MiB dictionaries (window moves, 64 KiB/2 MiB chunk limits). The input x option part is plain seeded generation executed inside the simulator; the simulator's own contribution is the history, fault and position-jump dimension.")
+st("C02", "exploration", "deterministic simulation over the Read/Write seams (histories, benign faults, position jump); containers x options by seeded generation",
+   "XZWriter (all checks, block sizes, 0-3 pre-filters via hook H2) and LZIPWriter (dictionary sizes incl. non-representable ones, member sizes) round trip through the crate's own readers under random histories and benign I/O; same bias and long-input variants as C01.")
+st("C07", "exploration", "deterministic simulation: the call-history dimension itself (write partitions, empty writes, flushes; read buffer sequences incl. zero-length)",
+   "Per generated (format, options, input) several write histories (one shot, byte-at-a-time, huge-then-tiny, random with flushes and empty writes) must all decode to the input; several read histories incl. zero-length destinations must all yield the same bytes. Covers every writer/reader and the filter writers/readers.")
+st("C12", "exploration", "deterministic simulation: concatenated streams/members with benign short/Interrupted reads on the padding scanner",
+   "1-5 XZ streams with different options joined by valid (0,4,8,12,16) or invalid (1,2,3,5,6,7) stream padding, 1-8 LZIP members; multi-stream reader must return the concatenation / reject bad padding, single-stream mode returns the first stream only.")
+st("C13", "exploration", "deterministic simulation: junk-filling allocator between repeated runs, write partitions as histories (MT part: schedules, see lzsim-mt mt.determ)",
+   "Same input and options encoded three times with fresh non-zeroed memory filled with different patterns must be byte-identical; four write partitions (no flush) must give identical bytes for LZMA, LZIP and for LZMA2/XZ without chunk/block size.")
+st("C16", "exploration", "deterministic simulation: exact byte accounting on the source seam under random read sizes and short/Interrupted reads",
+   "Valid LZMA (end marker; declared size), LZMA2 and single-stream XZ followed by nothing / zeros / another stream / random bytes: when the reader reports the end the source has handed out exactly the stream's bytes, and a second reader on the same source (into_inner) decodes the following stream.")
+st("C18", "exploration", "deterministic simulation: post-run analysis of recorded sink contents with independent parsers under one-huge vs many-small write histories (MT unit sizes and counts are checked in lzsim-mt C08)",
+   "XZ index records and LZIP trailers must not exceed max(block/member size, dict) and must sum to the input; .lzma expected size: write beyond it fails, finish short of it fails, header carries the bytes written.")
+
 NOT_YET = {}
 for i in range(1, 20):
     pid = f"C{i:02d}"
